@@ -1,5 +1,5 @@
 CONSTANTS NodeId = 127  PoolN = 16  WalkLen = 45  HbInit = 0  NT = 2  NR = 2  Depth = 2  SrvNode = 9  CfgName = "fullB"
-CONSTANT HcInit <- BHc  Objs <- FObjs  ObjOrder <- FOrder  V0 <- FV0  TC0 <- BTC  RC0 <- BRC  Sync0 <- BSync  Tbl <- BTbl  Groups <- BGroups  ProbeLetters <- BProbe
+CONSTANT RandLetter <- FRand  NRand <- FNRand  HcInit <- BHc  Objs <- FObjs  ObjOrder <- FOrder  V0 <- FV0  TC0 <- BTC  RC0 <- BRC  Sync0 <- BSync  Tbl <- BTbl  Groups <- BGroups  ProbeLetters <- BProbe
 INIT Init
 NEXT Next
 INVARIANT InvFull
